@@ -144,18 +144,21 @@ lists are read from — in the code that is the dict being mutated
 original table gives the same. -/
 def patchAndCount (t : RawTree) (Q : List Gene) (m : Nat) (readLk : Lookup)
     (st : VState) (p : PKey) (own : List Gene) : VState :=
-  if countQ Q own < m then
-    -- (the dict after the patch, `marker_lookup[parent_str]` after the patch)
-    let (lk', cur) : Lookup × List Gene := match p with
+  -- (the dict after the patch, `marker_lookup[parent_str]` after the patch)
+  let (lk', cur) : Lookup × List Gene :=
+    if countQ Q own < m then
+      match p with
       | none => (st.lookup, own)
       | some (l, n) =>
         let (new, pw) := patchOf t Q m readLk l n own
         if pw.isEmpty then (st.lookup, own)
         else (set st.lookup p (sortedInter Q new), sortedInter Q new)
-    if countQ Q cur == 0 then
-      { st with lookup := lk', anyErr := true, bad := st.bad + 1 }
-    else { st with lookup := lk' }
-  else st
+    else (st.lookup, own)
+  -- since the `fix:` 78f9fd9 this test runs for every consulted parent, not
+  -- only for those with fewer than `min_markers` markers
+  if countQ Q cur == 0 then
+    { st with lookup := lk', anyErr := true, bad := st.bad + 1 }
+  else { st with lookup := lk' }
 
 /-- one iteration of `for parent in all_parents` (already reversed), reading
 ancestor lists from `readLk` -/
@@ -358,14 +361,21 @@ def serializeNodes (t : RawTree) (c : Cache) :
         | .ok r => .ok ((some (l, n), g) :: r)
 
 /-- `serialize_markers(marker_cache_path, taxonomy_tree)`: every node of every
-non-leaf level (`[]` for fewer than two children), then `'None'` (always read) -/
+non-leaf level (`[]` for fewer than two children), then `'None'` (`[]` too when
+the root has fewer than two children — `fix:` d61aa05) -/
 def serialize (t : RawTree) (c : Cache) : Except MErr (List (PKey × List Gene)) :=
   let nodes := t.hierarchy.dropLast.flatMap (fun l => (t.nodesAt l).map (fun n => (l, n)))
   match serializeNodes t c nodes with
   | .error e => .error e
-  | .ok r => match reportedGroup c none with
+  | .ok r =>
+    match childrenOf t none with
     | .error e => .error e
-    | .ok g => .ok (r ++ [(none, g)])
+    | .ok ch =>
+      let root : Except MErr (List Gene) :=
+        if ch.length < 2 then .ok [] else reportedGroup c none
+      match root with
+      | .error e => .error e
+      | .ok g => .ok (r ++ [(none, g)])
 
 /-- gene-list part of `assemble_query_data(parent_node)`: the query genes of the
 node (by query index), checked against the reference genes (by reference index);
@@ -385,8 +395,8 @@ def assemble (c : Cache) (k : PKey) : Except MErr (List Gene) :=
     | _, .error e, _ => .error e
     | _, _, .error e => .error e
 
-/-- `reconcile_taxonomy_and_markers`: every parent except single-child non-root
-ones must have a group -/
+/-- `reconcile_taxonomy_and_markers`: every parent except single-child ones (the
+root included since `fix:` d61aa05) must have a group -/
 def reconcile (t : RawTree) (c : Cache) : Except MErr Unit :=
   let rec go : List PKey → Except MErr Bool
     | [] => .ok true
@@ -394,7 +404,7 @@ def reconcile (t : RawTree) (c : Cache) : Except MErr Unit :=
       match childrenOf t p with
       | .error e => .error e
       | .ok ch =>
-        let skip := p != none && ch.length == 1
+        let skip := ch.length == 1
         match go ps with
         | .error e => .error e
         | .ok r => .ok (r && (skip || (c.groups.lookup p).isSome))
